@@ -169,8 +169,8 @@ void gen_ilu_options(vf_rng *r, superlu_options_t *opt)
     opt->RowPerm = rng_bool(r, 0.5) ? LargeDiag_MC64 : NOROWPERM;
     static const int cps[] = { NATURAL, MMD_ATA, MMD_AT_PLUS_A, COLAMD, MY_PERMC };
     opt->ColPerm = (colperm_t)rng_pick(r, cps, 5);
-    static const double us[] = { 1.0, 0.5, 0.1, 0.1, 0.01, 1e-3 };
-    opt->DiagPivotThresh = us[rng_int(r, 0, 5)];
+    static const double us[] = { 1.0, 0.5, 0.1, 0.1, 0.01, 1e-3, 0.0 };   /* documented range [0, 1] */
+    opt->DiagPivotThresh = us[rng_int(r, 0, 6)];
     opt->Equil = rng_bool(r, 0.6) ? YES : NO;
     opt->Trans = (trans_t)rng_int(r, 0, 2);
     opt->SymmetricMode = rng_bool(r, 0.15) ? YES : NO;
